@@ -5,7 +5,12 @@ open Ftdc Ftdc.Metrics
 
 def jsonTok (t : String) : Option Line :=
   if t == "BAD" then some .malformed
-  else if t.startsWith "LONG" then some .tooLong
+  else if t.startsWith "LONG" || t.startsWith "PADL" then some .tooLong
+  else if t.startsWith "PADS" then
+    -- PADS<n>:<hex>: the same document in a line of exactly n bytes that the scanner accepts
+    match t.splitOn ":" with
+    | [_, h] => ((hexDecode h).bind parseDoc).map .doc
+    | _ => none
   else ((hexDecode t).bind parseDoc).map .doc
 
 /-- `json <N> <flush ms> | tokens`: the model is run without flush ticks (the harness only uses
